@@ -376,7 +376,14 @@ type slotCore struct {
 	core
 }
 
-func (g *slotCore) bind(slot int) *core {
+// carried is the exported State field of the enclosing generator value: like many hand-written generators this
+// one keeps working state behind an exported pointer and nil-guards it, so it works from the zero value that
+// reflect.New hands out. The prototype's field is not nil; if gengo lets it reach an instance, the state of
+// that instance is the prototype's and is shared by every package of the run (I1, A1).
+func (g *slotCore) bind(slot int, carried *instState) *core {
+	if g.st == nil && carried != nil {
+		g.st = carried
+	}
 	if g.script == nil {
 		g.script = noNewSlots[slot]
 	}
@@ -385,61 +392,85 @@ func (g *slotCore) bind(slot int) *core {
 
 // slots 0-3 implement AliasGenerator, 4-7 do not.
 type (
-	noNew0 struct{ slotCore }
-	noNew1 struct{ slotCore }
-	noNew2 struct{ slotCore }
-	noNew3 struct{ slotCore }
-	noNew4 struct{ slotCore }
-	noNew5 struct{ slotCore }
-	noNew6 struct{ slotCore }
-	noNew7 struct{ slotCore }
+	noNew0 struct {
+		slotCore
+		State *instState
+	}
+	noNew1 struct {
+		slotCore
+		State *instState
+	}
+	noNew2 struct {
+		slotCore
+		State *instState
+	}
+	noNew3 struct {
+		slotCore
+		State *instState
+	}
+	noNew4 struct {
+		slotCore
+		State *instState
+	}
+	noNew5 struct {
+		slotCore
+		State *instState
+	}
+	noNew6 struct {
+		slotCore
+		State *instState
+	}
+	noNew7 struct {
+		slotCore
+		State *instState
+	}
 )
 
-func (g *noNew0) Name() string { return g.bind(0).Name() }
-func (g *noNew1) Name() string { return g.bind(1).Name() }
-func (g *noNew2) Name() string { return g.bind(2).Name() }
-func (g *noNew3) Name() string { return g.bind(3).Name() }
-func (g *noNew4) Name() string { return g.bind(4).Name() }
-func (g *noNew5) Name() string { return g.bind(5).Name() }
-func (g *noNew6) Name() string { return g.bind(6).Name() }
-func (g *noNew7) Name() string { return g.bind(7).Name() }
+func (g *noNew0) Name() string { return g.bind(0, g.State).Name() }
+func (g *noNew1) Name() string { return g.bind(1, g.State).Name() }
+func (g *noNew2) Name() string { return g.bind(2, g.State).Name() }
+func (g *noNew3) Name() string { return g.bind(3, g.State).Name() }
+func (g *noNew4) Name() string { return g.bind(4, g.State).Name() }
+func (g *noNew5) Name() string { return g.bind(5, g.State).Name() }
+func (g *noNew6) Name() string { return g.bind(6, g.State).Name() }
+func (g *noNew7) Name() string { return g.bind(7, g.State).Name() }
 
 func (g *noNew0) GenerateType(c gengo.Context, t *types.Named) error {
-	return g.bind(0).GenerateType(c, t)
+	return g.bind(0, g.State).GenerateType(c, t)
 }
 func (g *noNew1) GenerateType(c gengo.Context, t *types.Named) error {
-	return g.bind(1).GenerateType(c, t)
+	return g.bind(1, g.State).GenerateType(c, t)
 }
 func (g *noNew2) GenerateType(c gengo.Context, t *types.Named) error {
-	return g.bind(2).GenerateType(c, t)
+	return g.bind(2, g.State).GenerateType(c, t)
 }
 func (g *noNew3) GenerateType(c gengo.Context, t *types.Named) error {
-	return g.bind(3).GenerateType(c, t)
+	return g.bind(3, g.State).GenerateType(c, t)
 }
 func (g *noNew4) GenerateType(c gengo.Context, t *types.Named) error {
-	return g.bind(4).GenerateType(c, t)
+	return g.bind(4, g.State).GenerateType(c, t)
 }
 func (g *noNew5) GenerateType(c gengo.Context, t *types.Named) error {
-	return g.bind(5).GenerateType(c, t)
+	return g.bind(5, g.State).GenerateType(c, t)
 }
 func (g *noNew6) GenerateType(c gengo.Context, t *types.Named) error {
-	return g.bind(6).GenerateType(c, t)
+	return g.bind(6, g.State).GenerateType(c, t)
 }
 func (g *noNew7) GenerateType(c gengo.Context, t *types.Named) error {
-	return g.bind(7).GenerateType(c, t)
+	return g.bind(7, g.State).GenerateType(c, t)
 }
 
 func (g *noNew0) GenerateAliasType(c gengo.Context, t *types.Alias) error {
-	return g.bind(0).generateAlias(c, t)
+	return g.bind(0, g.State).generateAlias(c, t)
 }
 func (g *noNew1) GenerateAliasType(c gengo.Context, t *types.Alias) error {
-	return g.bind(1).generateAlias(c, t)
+	return g.bind(1, g.State).generateAlias(c, t)
 }
 func (g *noNew2) GenerateAliasType(c gengo.Context, t *types.Alias) error {
-	return g.bind(2).generateAlias(c, t)
+	return g.bind(2, g.State).generateAlias(c, t)
 }
 func (g *noNew3) GenerateAliasType(c gengo.Context, t *types.Alias) error {
-	return g.bind(3).generateAlias(c, t)
+	return g.bind(3, g.State).generateAlias(c, t)
 }
 
 // newSlot returns the prototype that is handed to Execute. Like a generator
@@ -449,21 +480,21 @@ func newSlot(slot int) gengo.Generator {
 	sc := slotCore{core{st: &instState{serial: rec.nextSerial(), helper: true, seen: 100}}}
 	switch slot {
 	case 0:
-		return &noNew0{sc}
+		return &noNew0{sc, sc.st}
 	case 1:
-		return &noNew1{sc}
+		return &noNew1{sc, sc.st}
 	case 2:
-		return &noNew2{sc}
+		return &noNew2{sc, sc.st}
 	case 3:
-		return &noNew3{sc}
+		return &noNew3{sc, sc.st}
 	case 4:
-		return &noNew4{sc}
+		return &noNew4{sc, sc.st}
 	case 5:
-		return &noNew5{sc}
+		return &noNew5{sc, sc.st}
 	case 6:
-		return &noNew6{sc}
+		return &noNew6{sc, sc.st}
 	}
-	return &noNew7{sc}
+	return &noNew7{sc, sc.st}
 }
 
 func buildGenerators(scripts []proto.GenScript) ([]gengo.Generator, error) {
